@@ -147,26 +147,51 @@ def classify(run, meta):
                 continue
         clause, site_fn, site_line, site_text, site_file = None, None, None, None, None
         clause_fn = None
+        macros = []
         for sp in d.get('spans', []):
-            o = origin_of(meta, sp['file_name'], sp['line_start'])
-            text = ' '.join(t['text'].strip() for t in sp.get('text', [])[:3])
-            if o and o.get('kind') == 'contract' and o.get('clause'):
-                # prefer the span that names the failed clause
-                if clause is None or 'failed' in (sp.get('label') or ''):
-                    clause = o['clause']
-            f = fn_of(meta, sp['file_name'], sp['line_start'])
-            if o and o.get('kind') == 'src':
-                if site_fn is None or sp.get('is_primary'):
-                    site_fn = f['qual'] if f else None
-                    site_file, site_line, site_text = o['file'], o['line'], text
-            elif f and clause_fn is None:
-                clause_fn = f['qual']
+            # the chain of spans from the reported location outwards through macro expansions
+            chain, cur = [], sp
+            while cur is not None:
+                chain.append(cur)
+                e = cur.get('expansion')
+                if e:
+                    macros.append(e.get('macro_decl_name') or '')
+                cur = e.get('span') if e else None
+            for c in chain:
+                o = origin_of(meta, c['file_name'], c['line_start'])
+                if o and o.get('kind') == 'contract' and o.get('clause'):
+                    if clause is None or 'failed' in (sp.get('label') or ''):
+                        clause = o['clause']
+                    f = fn_of(meta, c['file_name'], c['line_start'])
+                    if f and clause_fn is None:
+                        clause_fn = f['qual']
+            # site: innermost span of real source text for the expression, first enclosing function for the name
+            src_spans = [(c, origin_of(meta, c['file_name'], c['line_start'])) for c in chain]
+            src_spans = [(c, o) for (c, o) in src_spans if o and o.get('kind') == 'src']
+            if src_spans and (site_fn is None or sp.get('is_primary')):
+                c0, o0 = src_spans[0]
+                text = ' '.join(t['text'].strip() for t in c0.get('text', [])[:2])
+                fn_here = None
+                for (c, o) in src_spans:
+                    f = fn_of(meta, c['file_name'], c['line_start'])
+                    if f:
+                        fn_here = f
+                        site_file, site_line = o['file'], o['line']
+                        break
+                if fn_here is not None or site_fn is None:
+                    site_fn = fn_here['qual'] if fn_here else site_fn
+                    site_text = text
+                    if fn_here is None:
+                        site_file, site_line = o0['file'], o0['line']
+        if kind == 'precondition' and any(m.rstrip('!').split('::')[-1] in ('unreachable', 'todo', 'panic', 'unimplemented',
+                                                                             'unreachable_2021', 'panic_2021', 'assert')
+                                          for m in macros):
+            kind = 'panic'
         if site_fn is None:
             site_fn = clause_fn
-        # spans inside appended spec text (lemmas): function name from the text itself
         if site_fn is None:
             for sp in d.get('spans', []):
-                site_fn = 'spec:' + sp['file_name'] + ':' + (clause or '?')
+                site_fn = 'spec:' + sp['file_name'].split('/')[-1] + ':' + (clause or '?')
                 break
         expr = re.sub(r'\s+', ' ', site_text or '')[:120]
         if clause:
@@ -193,7 +218,7 @@ def load_known():
 def tags_of_failure(f, meta, safety_tags):
     if f['clause'] and f['clause'] in meta['clauses']:
         t = list(meta['clauses'][f['clause']]['tags'])
-        if f['kind'] in ('overflow', 'bounds', 'unreachable', 'termination', 'divzero'):
+        if f['kind'] in ('overflow', 'bounds', 'unreachable', 'termination', 'divzero', 'panic'):
             t += [x for x in safety_tags if x not in t]
         return t
     return list(safety_tags)
@@ -406,7 +431,7 @@ def _run(pid, P, tier, seed, scratch, t0):
         for f in fail_by.get(o['cfg'], []):
             if o['id'].startswith('SAFETY.'):
                 if f['fn'] == o['where'] and (not f['clause'] or f['kind'] in ('overflow', 'bounds', 'unreachable',
-                                                                                'termination', 'divzero', 'precondition')):
+                                                                                'termination', 'divzero', 'precondition', 'panic')):
                     bad = f
             elif o['id'].startswith('KANI.'):
                 if f['id'] == o['id']:
